@@ -1079,14 +1079,33 @@ fn part_json(ctx: &mut Ctx) {
             evals += check_items(ctx, &spec, &file, "constructed", &compact);
         }
         // a file written by hand from the same data
-        let version = if spec.filters.aspa.is_some() || spec.aspa.is_some() || rng.chance(1, 4) { 2 } else { 1 };
+        // Files with ASPA members normally say version 2; a version-1 file that
+        // carries them anyway is offered too: the parser may refuse it, but if it
+        // accepts the file its filters must work like any others.
+        let has_aspa_member = spec.filters.aspa.is_some() || spec.aspa.is_some();
+        let version = if has_aspa_member { if rng.chance(1, 3) { 1 } else { 2 } } else if rng.chance(1, 4) { 2 } else { 1 };
         let hand = spec.handwritten_json(version);
         match SlurmFile::from_str(&hand) {
             Ok(parsed) => {
                 hand_ok += 1;
                 evals += check_items(ctx, &spec, &parsed, "parsed", &hand);
                 // what it says about dropping equals what the model says
-                for item in spec.items().iter().take(4) {
+                // probe with the file's own assertions and with items made to match its filters
+                let mut probes: Vec<Item> = spec.items().into_iter().take(4).collect();
+                if let Some(af) = &spec.filters.aspa {
+                    for f in af.iter().take(2) {
+                        if let Some(c) = f.customer {
+                            probes.push(Item::Aspa { customer: c, providers: vec![c.wrapping_add(1)] });
+                        }
+                    }
+                }
+                for f in spec.filters.bgpsec.iter().take(2) {
+                    if let (Some(ski), Some(asn)) = (f.ski.clone(), f.asn) {
+                        probes.push(Item::RouterKey { ski, asn, info: vec![1, 2, 3] });
+                    }
+                }
+                ctx.sig(&format!("handwritten json version={} aspa-member={} accepted", version, has_aspa_member));
+                for item in probes.iter() {
                     evals += 1;
                     let want = spec.filters.drops(item);
                     let got = parsed.drop_payload(&item.lib());
